@@ -149,7 +149,14 @@ impl LogState {
         let topdir = env::current_dir()?;
         let mut lines_written: i64 = 0;
         let mut interrupted: i64 = 0;
-        if !self.already.insert(t.to_string()) {
+        // `already` is keyed by the cleaned path (as the callers' `fixname` is): the same target
+        // reached through another relative spelling (`sub/../c`) must not be shown twice.
+        let key = redo::normpath(t.as_path())
+            .into_owned()
+            .into_os_string()
+            .into_string()
+            .expect("cannot format target as string");
+        if !self.already.insert(key) {
             return Ok(0);
         }
         if t.as_str() != "-" {
